@@ -21,7 +21,7 @@ arrays as elements (they recurse into the same members).
 import os
 import re
 
-from vlib import common, ir0, absint, owning, typestate
+from vlib import common, ir0, absint, owning, ownrules, typestate
 
 SYM = r"""
 #include <boost/multi/detail/serialization.hpp>
@@ -339,7 +339,14 @@ def run(tier):
                     bad.append("expected one for_each over the elements and nothing else, got %d for_each and %s" % (len(calls), others[:3]))
                     continue
                 at = repr(typestate.strip(calls[0][3]))
-                if at.count("elements_iterator_t") < 0 or "elements" not in at or "('param', 0)" not in at:
+                a3 = [typestate.strip(x) for x in calls[0][3]]
+                from_base = [x for x in a3 if isinstance(x, tuple) and ((x[0] == "init" and x[1] == ("param", 0)) or (x[0] == "gep" and isinstance(x[1], tuple) and x[1][:2] == ("init", ("param", 0))))]
+                if len(from_base) >= 2:
+                    # walked from the view's base pointer in address order: the canonical order only under a guard that makes the layout the
+                    # contiguous row-major one of its extents (the idioms accepted by R04.viewflat)
+                    if not ownrules._flat_guard_ok(D, 0, [repr(c) for c, v in p.pc.items() if v]):
+                        bad.append("the elements are walked in address order from the view's base pointer on a path that does not establish a contiguous row-major layout")
+                elif "elements" not in at or "('param', 0)" not in at:
                     bad.append("the traversed range is not this->elements(): %s" % typestate.short_t(calls[0][3], 120))
             if not rets:
                 bad.append("no normal path")
